@@ -12,7 +12,7 @@ CONSTANTS K,      \* schedules printed per goal and worker
           Goals   \* the goals (by number) this configuration looks for; the search stops once each has its quota
 
 GView == <<now, job, pods, jc, pc, jq, pq, wq, timer, retry, pass, down, faults, crashes, rvc, uidc,
-           ever, succ, listed, succRec, edited, udel, ttlAt, ttlLB, doneAt, taint>>
+           ever, succ, listed, succRec, edited, udel, ttlAt, ttlLB, doneAt, taint, last.a>>
 GNext == Next /\ sched' = Append(sched, Proj(last') @@ [e |-> Exp])
 GSpec == SInit /\ [][GNext]_svars
 
@@ -25,8 +25,8 @@ G_MarkedThenSucceeded == \E s \in Slots : job.ex /\ job.refs[s].ex /\ job.refs[s
 G_KillMidPass == job.ex /\ job.kill # 0 /\ job.kill <= now /\ pass.busy /\ faults > 0 /\ \E s \in Mine(pods) : Alive(pods[s])
 \* the Job's recorded condition is Finished while one of its tasks is alive (admission error, cache skew)
 G_FinishedWithLive == job.ex /\ ~job.del /\ job.kind = "Finished" /\ \E s \in Mine(pods) : Alive(pods[s]) /\ pods[s].dl = 0
-\* the Job is being deleted, tasks exist, and the controller has restarted
-G_DeletingAfterCrash == job.ex /\ job.del /\ crashes > 0 /\ \E s \in Mine(pods) : TRUE
+\* the Job is being deleted, tasks exist, and the controller has just restarted
+G_DeletingAfterCrash == job.ex /\ job.del /\ last.a = "CrashRestart" /\ \E s \in Mine(pods) : TRUE
 \* a retry exists for an index while the other index has not finished its first attempt
 G_RetryWhileOtherRuns == \E s \in Mine(pods) : s[2] > 0 /\ Alive(pods[s]) /\ \E t \in Mine(pods) : t[1] # s[1] /\ t[2] = 0 /\ Alive(pods[t]) /\ pods[t].ran
 
